@@ -321,6 +321,12 @@ func (x *bufExec) rangeOp(f []string, useBuffer bool) string {
 			panic("scripted panic")
 		case cb == "c":
 			return true
+		case cb == "G":
+			// the consumer is shared: while this callback runs, someone else reads its next value (if there is one)
+			if d, ok := x.b.Diff(c); ok && d > 0 {
+				_, _ = c.Get(context.Background())
+			}
+			return true
 		case strings.HasPrefix(cb, "P"):
 			// the callback itself Puts a value (it arrives while the callback of this value is running)
 			_ = x.b.Put(context.Background(), atoi(cb[1:]))
@@ -645,6 +651,8 @@ func genBuffer(r *rng.R, tier string, i int) []string {
 				if r.Chance(20) {
 					op += fmt.Sprintf(" P%d", 5000+next)
 					next++
+				} else if r.Chance(15) {
+					op += " G"
 				} else {
 					op += " c"
 				}
